@@ -360,7 +360,21 @@ def generate(scratch, gen, universe, outdir, registry=None, extra_files=None):
     p = run(args, cwd=outdir, timeout=600, check=False)
     if p.returncode != 0:
         raise Internal("generator failed on universe %s (%s):\n%s" % (universe, gen, p.stdout[-4000:]))
-    # all_imports_test.gr.go is package main with no func main; it is a test file by name only
+    if registry:
+        # keep only the constructor entries the generator really emitted (their absence is a
+        # finding of C13, not a build error of the harness)
+        src = ""
+        for root, _, files in os.walk(target):
+            for f in files:
+                if f.endswith(".go"):
+                    src += open(os.path.join(root, f)).read()
+        lines = []
+        for line in open(registry).read().split("\n"):
+            m = re.search(r"return gen_\w+\.(New\w+WithDefaultValues)\(\)", line)
+            if m and ("func " + m.group(1) + "(") not in src:
+                continue
+            lines.append(line)
+        open(registry, "w").write("\n".join(lines))
     return target
 
 
